@@ -815,6 +815,7 @@ public:
     i.tolerances["consistency"] = "optimize() == getFunctionValue() == objective at getParameters(): exact (same deterministic evaluator); objective's own parameters == getParameters(): exact";
     i.tolerances["convergence"] = "max-norm distance to the minimiser <= K * (D + floor); D = sqrt(2 tol / lmin) for absolute function-change stop conditions (Bfgs, ConjugateGradient, Simple*, Newton1D, Meta), sqrt(2 tol |fmin| / lmin) for the relative ones (Powell, DownhillSimplex), tol * |xmin| + 1e-10 for Brent / golden section; floor = sqrt(128 eps max(|fmin|, 1e-300) / lmin) + 64 eps |xmin|; lmin = smallest eigenvalue (curvature along the coordinate for 1-D optimisers); K = Bfgs 1e5, ConjugateGradient 500, Powell 3000, DownhillSimplex 5000 / 1e5 / 3e5 / 3e6 for dimensions 1 / 2-4 / 5 / 6, SimpleMulti/SimpleNewtonMulti 1000, Brent/BrentInward/GoldenSection 50, Newton1D 1e-6, Meta 1e5: each >= 100 x the worst ratio of 130 000 runs of the unchanged tree";
     i.tolerances["bracket-ties"] = "abscissae closer than 64 eps * max|x| count as equal when naming the middle point (rounding of the inward scan)";
+    i.cpuLimitFactor = 6;      // one run is up to four optimisations, each bounded by the evaluation cap (seconds of CPU under ASan)
     i.assumptions = {"a run that reaches the harness's evaluation cap while the optimiser's own counter is still below its budget is inconclusive (counted, not reported), also when it made no progress for a long time: only ONE iteration consuming more than half the cap is reported as a hang",
                      
       "monotone decrease step by step, iteration counts, behaviour with a listener that modifies parameters or an objective returning NaN / raising: not asserted",
